@@ -14,7 +14,7 @@ from bctmc.tally import Tally
 
 PROPERTY = 'C12'
 RULE = ('Floyd: all 3-node digraphs / 4-node graphs over lengths {1,2,3}, all binary 4-node digraphs, dyadic weights '
-        '{1,1/2,1/4} with inv and log, and the float near-tie alphabets {0.1,0.2,0.3} / {0.2,0.4,0.6} (0.1+0.2 != 0.3 in '
+        '{1,1/2,1/4} with inv and log, the exact near-tie alphabets {1,2,2+2^-20} and {1,2^20,2^20+1}, and the float near-tie alphabets {0.1,0.2,0.3} / {0.2,0.4,0.6} (0.1+0.2 != 0.3 in '
         'binary floating point), every ordered (s,t) (thorough: lengths {1,2} on all 4-node digraphs and 5-node graphs); '
         'navigation: binary L on 4 nodes x all symmetric D over {1,2,3}, L over {0,1,2} x D over {1,2}, max_hops in '
         '{None,1,2,3} (thorough: L over {0,1,2} x all D over {1,2,3}; 5-node binary L x D over {1,2}); non-trivial = '
@@ -28,6 +28,9 @@ FLOYD = {
     'len_dir3': (True, 3, (0, 1, 2, 3), None, 'q'),
     'len_und4': (False, 4, (0, 1, 2, 3), None, 'q'),
     'bin_dir4': (True, 4, (0, 1), None, 'q'),
+    'neartie_dir3': (True, 3, (0, 1, 2, 2 + 2.0 ** -20), None, 'q'),
+    'neartie_und4': (False, 4, (0, 1, 2, 2 + 2.0 ** -20), None, 'q'),
+    'mixedscale_und4': (False, 4, (0, 1, 2.0 ** 20, 2.0 ** 20 + 1), None, 'q'),
     'wt_dir3': (True, 3, (0, 1, 0.5, 0.25), 'both', 'q'),
     'wt_und4': (False, 4, (0, 1, 0.5, 0.25), 'both', 'q'),
     'near_dir3': (True, 3, (0, 0.1, 0.2, 0.3), None, 'q'),
@@ -78,7 +81,7 @@ def lengths_for(X, transform):
 
 def check_floyd(t, X, transform, case):
     n = len(X)
-    exact = bool(np.all(np.mod(X * 64.0, 1.0) == 0))      # lengths are dyadic: float sums are exact
+    exact = bool(np.all(np.mod(X * 2.0 ** 30, 1.0) == 0) and np.all(np.abs(X) < 2.0 ** 21))   # dyadic: sums are exact
     _viol = t.viol
 
     def viol(fn, clause, c, **kw):
